@@ -299,7 +299,7 @@ def alphabet(g, n, level):
     if len(g.layerlist) > 1:
         ops.append(('ry', [], 2))
         if level > 0: ops.append(('ry', [lays[1]], 4 if level >= 2 else 2))
-        ops.append(('sn', 6.0, [])); ops.append(('sr', []))
+        ops.append(('sn', 6.0, [])); ops.append(('sn', 5.0, [])); ops.append(('sr', []))
         if level > 0: ops.append(('sr', names[:1]))
         ops.append(('cl', [(lays[0], 0., 0., 0.), ('zz'[-g.layername_length:].rjust(g.layername_length), -4., -2., 0.), (lays[1], -12., -8., -4.)]))
     ops.append(('tl', 5., -3., 2.)); ops.append(('ro', 30.))
